@@ -216,6 +216,9 @@ func (p vf25PostPlacement) HandlePostPlacement(*object.Object, []netmap.NodeInfo
 
 type vf25Scenario struct {
 	Case        int        `json:"case"`
+	Focus       bool       `json:"rule_correlated_family,omitempty"` // generated by the "focus" stream
+	LocalIn     []int      `json:"local_node_in_lists,omitempty"`
+	FailClass   string     `json:"failure_pattern,omitempty"`
 	Reps        []uint     `json:"rep_counts,omitempty"`
 	EC          []string   `json:"ec_rules,omitempty"`
 	Lists       [][]int    `json:"node_lists"` // indexes into the node universe
@@ -246,13 +249,17 @@ func TestVerif_C25(t *testing.T) {
 	r := verifkit.Start(t, "C25", "exploration")
 	defer r.Finish()
 	nCases := r.Pick(2500, 40000)
+	nFocus := r.Pick(3000, 30000)
 	r.SetRule(fmt.Sprintf("%d seeded PUTs, each on its own service: policy = 1..3 REP rules (1..4 copies) or 1..3 EC rules (d=1..4,p=1..3, rules may repeat) over node lists drawn with overlap from a universe of 5..14 nodes, optionally an initial policy (per-rule limits, MaxReplicas, PreferLocal); local node inside (any list position) or outside the container; every node stores, refuses, or refuses its first 1..2 requests, answers are given concurrently with seeded yields; objects: node-sliced regular (one object or split by size), client-signed regular, tombstone, lock; distinct = (policy shape, initial shape, local position class, failure pattern class, object kind, result class)", nCases))
 	r.Assume("acknowledgement = the fake node (local storage, replication transport or remote PUT stream) returned success for the object")
 	r.Assume("under MaxReplicas the total is counted in the way most favourable to the code: max(distinct acknowledging nodes + completed EC rules, sum over rules of min(limit, acknowledging nodes of the rule's list) + completed EC rules)")
 	r.Assume("REP+EC policies are not generated (rejected at container creation); system objects in EC containers are not judged (statement is silent)")
 
 	for i := 0; i < nCases; i++ {
-		vf25Case(r, i)
+		vf25Case(r, i, false)
+	}
+	for i := 0; i < nFocus; i++ {
+		vf25Case(r, i, true)
 	}
 	if r.Counter("puts_full_success") == 0 || r.Counter("puts_error") == 0 {
 		r.Inconclusive("did not observe both successful and failed PUTs")
@@ -260,19 +267,41 @@ func TestVerif_C25(t *testing.T) {
 	if r.Counter("success_judged_rep") == 0 || r.Counter("success_judged_ec") == 0 || r.Counter("success_judged_initial") == 0 {
 		r.Inconclusive("some policy family never produced a judged success")
 	}
+	for _, fam := range []string{"rep", "ec"} {
+		for _, c := range []string{"initial_max", "initial_max_prefer_local_in_first_list", "initial_max_prefer_local_in_later_lists_only"} {
+			if r.Counter("success_judged_"+fam+"_"+c) == 0 || r.Counter("not_success_"+fam+"_"+c) == 0 {
+				r.Inconclusive("policy class " + fam + "/" + c + " was not observed with both a judged success and a reported failure")
+			}
+		}
+	}
+	if r.Counter("success_judged_with_whole_lists_down") == 0 {
+		r.Inconclusive("no judged success with all nodes of some rule's list refusing")
+	}
 }
 
-func vf25Case(r *verifkit.Run, idx int) {
-	rng := r.Rand("case", idx)
+func vf25Case(r *verifkit.Run, idx int, focus bool) {
+	// The "case" stream draws everything independently.  The "focus" stream generates the
+	// situations in which the counting over SEVERAL rules decides the result: >= 2 rules,
+	// mostly an initial policy with a total cap, the local node a member of a chosen subset
+	// of the rules' lists, and failures correlated with the rules (whole lists down, or a
+	// number of live nodes around the demanded total).
+	stream := "case"
+	if focus {
+		stream = "focus"
+	}
+	rng := r.Rand(stream, idx)
 	w := &vf25World{modes: map[string]vf25NodeMode{}, seen: map[string]int{}, gosched: map[string]int{}}
 	nodeKey := vf25Key(rng)
 	localPub := nodeKey.PublicKey().Bytes()
 
-	sc := vf25Scenario{Case: idx, Local: -1}
+	sc := vf25Scenario{Case: idx, Local: -1, Focus: focus}
 	ecPolicy := rng.IntN(5) < 2
 	var reps []uint
 	var rules []iec.Rule
 	nRules := 1 + rng.IntN(3)
+	if focus && nRules == 1 {
+		nRules = 2 + rng.IntN(2)
+	}
 	need := make([]int, nRules)
 	if ecPolicy {
 		rules = make([]iec.Rule, nRules)
@@ -303,7 +332,7 @@ func vf25Case(r *verifkit.Run, idx int) {
 		universe[i].SetPublicKey(append([]byte{3}, verifkit.RandBytes(rng, 32)...))
 		universe[i].SetNetworkEndpoints("/ip4/10.0.1." + strconv.Itoa(i+1) + "/tcp/8080")
 	}
-	if rng.IntN(4) != 0 {
+	if focus || rng.IntN(4) != 0 {
 		sc.Local = rng.IntN(uniN)
 		universe[sc.Local].SetPublicKey(localPub)
 	}
@@ -311,9 +340,41 @@ func vf25Case(r *verifkit.Run, idx int) {
 	sc.Lists = make([][]int, nRules)
 	for i := range lists {
 		n := need[i] + rng.IntN(min(uniN-need[i], 3)+1)
-		perm := rng.Perm(uniN)[:n]
-		sc.Lists[i] = perm
-		for _, j := range perm {
+		sc.Lists[i] = rng.Perm(uniN)[:n]
+	}
+	if focus {
+		// the local node belongs to exactly the lists of a seeded non-empty subset of the
+		// rules (any position); list lengths stay >= the rule's requirement
+		member := 1 + rng.IntN(1<<nRules-1)
+		for i := range sc.Lists {
+			pos := -1
+			for k, j := range sc.Lists[i] {
+				if j == sc.Local {
+					pos = k
+				}
+			}
+			switch want := member>>i&1 == 1; {
+			case want && pos < 0:
+				sc.Lists[i][rng.IntN(len(sc.Lists[i]))] = sc.Local
+			case !want && pos >= 0 && len(sc.Lists[i]) > need[i]:
+				sc.Lists[i] = append(sc.Lists[i][:pos:pos], sc.Lists[i][pos+1:]...)
+			case !want && pos >= 0:
+				in := map[int]bool{}
+				for _, j := range sc.Lists[i] {
+					in[j] = true
+				}
+				var spare []int
+				for j := 0; j < uniN; j++ {
+					if !in[j] {
+						spare = append(spare, j)
+					}
+				}
+				sc.Lists[i][pos] = spare[rng.IntN(len(spare))] // uniN > need[i] = len(list)
+			}
+		}
+	}
+	for i := range lists {
+		for _, j := range sc.Lists[i] {
 			lists[i] = append(lists[i], universe[j])
 		}
 	}
@@ -322,13 +383,19 @@ func vf25Case(r *verifkit.Run, idx int) {
 		for _, j := range sc.Lists[i] {
 			if j == sc.Local {
 				localIn = true
+				sc.LocalIn = append(sc.LocalIn, i)
+				break
 			}
 		}
 	}
 
 	// node behaviour
 	failClass := "none"
-	switch rng.IntN(6) {
+	failKind := -1 // focus: decided below, when the policy is known
+	if !focus {
+		failKind = rng.IntN(6)
+	}
+	switch failKind {
 	case 0: // all fine
 	case 1, 2: // few sticky failures
 		failClass = "few-refuse"
@@ -361,14 +428,6 @@ func vf25Case(r *verifkit.Run, idx int) {
 		}
 	}
 	for i := range universe {
-		m := w.modes[string(universe[i].PublicKey())]
-		s := "ok"
-		if m.refuse {
-			s = "refuse"
-		} else if m.failFirst > 0 {
-			s = "fail-first-" + strconv.Itoa(m.failFirst)
-		}
-		sc.Modes = append(sc.Modes, s)
 		w.gosched[string(universe[i].PublicKey())] = rng.IntN(4)
 	}
 
